@@ -17,6 +17,14 @@ IMPORTS = "From DtlsV Require Import Lib.Bytes Crypto.C10Run."
 HARNESSES = [
     ("prf", "./pkg/crypto/prf", "^TestVerifC10Prf$", "pkg/crypto/prf/prf.go"),
     ("suite", "./pkg/crypto/ciphersuite", "^TestVerifC10Suite$", "pkg/crypto/ciphersuite"),
+    ("ccm", "./pkg/crypto/ciphersuite", "^TestVerifC10CCMMode$", "pkg/crypto/ccm/ccm.go"),
+    ("suites12", "./internal/ciphersuite", "^TestVerifC10Suites12$", "internal/ciphersuite Init/Encrypt"),
+    ("keyschedule", "./pkg/crypto/keyschedule", "^TestVerifC10KeySchedule$", "pkg/crypto/keyschedule/keyschedule.go"),
+    ("schedule13", "./internal/handshake", "^TestVerifC10Schedule13$", "internal/handshake/traffic_secrets.go"),
+    ("keymessage", "./internal/handshakecrypto", "^TestVerifC10KeyMessage$", "internal/handshakecrypto/crypto.go ValueKeyMessage"),
+    ("exporter", ".", "^TestVerifC10ExporterUnit$", "state.go ExportKeyingMaterial"),
+    ("exporter-e2e", ".", "^TestVerifC10ExporterE2E$", "state.go ExportKeyingMaterial"),
+    ("record13", "./internal/ciphersuite", "^TestVerifC10Record13$", "internal/ciphersuite/tls_13_record_protection.go"),
 ]
 
 
@@ -83,23 +91,25 @@ def run(chk):
     if not ok_model:
         chk.broken("model Crypto/C10Run.v no longer compiles", mo)
     else:
-        for leg, site, cases in legs:
-            terms = [term(c) for c in cases]
-            shard = max(8, min(60, len(terms) // 24 + 1))
-            bad, err = vlib.coq_mismatches("c10" + leg, IMPORTS, "c10_case", "case_ok", terms, shard=shard)
-            if bad is None:
-                chk.broken("correspondence evaluation (%s) failed in coqc" % leg, err)
-                continue
+        # one parallel evaluation over the cases of all legs
+        allc = [(leg, site, c) for leg, site, cases in legs for c in cases]
+        terms = [term(c) for _, _, c in allc]
+        shard = max(8, min(40, len(terms) // 36 + 1))
+        bad, err = vlib.coq_mismatches("c10", IMPORTS, "c10_case", "case_ok", terms, shard=shard)
+        if bad is None:
+            chk.broken("correspondence evaluation failed in coqc", err)
+        else:
+            badset = set(bad)
             reported = set()
             for i in bad:
-                c = cases[i]
+                leg, site, c = allc[i]
                 sig = signature_of(c)
                 k = (c.get("site") or site, str(sig))
                 if k in reported:
                     continue
                 reported.add(k)
                 found_input = True
-                mv = model_value(c, "c10val_%s_%d" % (leg, i))
+                mv = model_value(c, "c10val_%s_%d" % (re.sub(r"[^a-z0-9]", "", leg), i))
                 chk.finding(c.get("site") or site, sig,
                             "%s: Go output differs from the RFC formula (independent model Crypto/C10*.v)"
                             % c.get("tag", c["fn"]),
@@ -108,16 +118,20 @@ def run(chk):
                                     "`go_out` is what /repo returned, `model_out` is the RFC value",
                              "function": c.get("tag"), "case": c, "go_out": c["out"], "model_out": mv,
                              "note": c.get("note", ""),
-                             "correspondence": "Crypto.C10Run.case_ok",
+                             "correspondence": "Crypto.C10Run.case_ok (function code %d)" % c["fn"],
                              "rerun": "VERIF_SEED=%d bin/check C10 --tier %s" % (chk.seed, chk.tier)})
-            nt = [c for c in cases if nontrivial(c)]
-            chk.count(leg, len(cases), [key_of(c) for c in nt], samples=nt[-2:])
-            fns = {}
-            for c in cases:
-                t = c.get("tag", str(c["fn"]))
-                fns[t] = fns.get(t, 0) + 1
-            chk.leg_info(leg, functions=fns, mismatching=len(bad))
-            chk.cov["traces_validated_against_impl"] += len(cases)
+            base = 0
+            for leg, site, cases in legs:
+                nt = [c for c in cases if nontrivial(c)]
+                chk.count(leg, len(cases), [key_of(c) for c in nt], samples=nt[-1:])
+                fns = {}
+                for c in cases:
+                    t = c.get("tag", str(c["fn"]))
+                    fns[t] = fns.get(t, 0) + 1
+                nbad = sum(1 for i in range(base, base + len(cases)) if i in badset)
+                base += len(cases)
+                chk.leg_info(leg, functions=fns, mismatching=nbad)
+                chk.cov["traces_validated_against_impl"] += len(cases)
     if not proved:
         where, out = getattr(chk, "proof_error", ("?", ""))
         if not found_input:
